@@ -174,6 +174,42 @@ func (s *scanner) orderCheck(in, out []uint64) (int, uint64) {
 	return -1, 0
 }
 
+// windowsCheck converts the same samples once more, this time in three
+// pieces through pairs of windows (Slice views) of the two operands, the LAST
+// piece first, and then reads the whole destination: a conversion writes the
+// common prefix of its two windows and nothing behind it, so the pieces must
+// add up to what the single call gave. Returns the first differing index.
+func (s *scanner) windowsCheck(in, out []uint64) (int, uint64) {
+	n := len(in)
+	frames := n / s.ch // whole frames only
+	if frames < 3 {
+		return -1, 0
+	}
+	keep := s.tmp[:n]
+	copy(keep, out)
+	src, dst := s.src.Slice(0, frames), s.dst.Slice(0, frames)
+	s.cv.S.Fill(src, in[:frames*s.ch])
+	cuts := []int{0, frames / 3, frames/3 + (frames+1)/2, frames}
+	if cuts[2] > frames {
+		cuts[2] = frames
+	}
+	for k := 2; k >= 0; k-- {
+		a, b := cuts[k], cuts[k+1]
+		if p, msg := core.Guard(func() { s.cv.Call(s.src.Slice(a, b), s.dst.Slice(a, b)) }); p && s.panicked == "" {
+			s.panicked = msg
+		}
+	}
+	got := s.rev[:frames*s.ch]
+	s.cv.D.Drain(dst, got)
+	for i := range got {
+		if got[i] != keep[i] {
+			return i, got[i]
+		}
+	}
+	copy(out, keep)
+	return -1, 0
+}
+
 // prelude converts a short buffer that STARTS with the zero-amplitude sample
 // (and repeats it between extreme values) and returns the results, so that
 // state carried from sample to sample (a cache of the previous value, an
